@@ -1,4 +1,5 @@
 import PynnVerif.Proofs.Diversify
+import PynnVerif.Proofs.GenSearchGraph
 import Mathlib.Data.Nat.Basic  -- `LinearOrder Nat` for the concrete examples at the end
 
 /-!
@@ -478,5 +479,98 @@ theorem searchGraph_nearest_needs_htie :
       decide +kernel
     rw [h]
     simp
+
+/-! ## the translated `degree_prune_internal` (`Gen/SearchGraphKernels.lean`) refines the model
+
+`GenSG.degree_prune_internal fuel indptr data max_degree` is the syntax-directed translation of the
+source text of `pynndescent_.degree_prune_internal` (`harness/translate_searchgraph.py`, re-run by
+`check` before every build): `Option` monad, `none` = out-of-bounds load / store or fuel exhausted;
+`prange` as `range`; the row view `data[indptr[i]:indptr[i+1]]` as a copy (it is only read before
+the stores); `np.sort` is the UNINTERPRETED `SortFn.sortArr`.  Helper lemmas:
+`Proofs/GenSearchGraph.lean`. -/
+section KernelTie
+open Pynn.GenSearchGraphProofs Pynn.GenSG
+
+/-- any function that returns an ascending permutation of its argument IS the model's `sortP`
+(over a linear order the ascending rearrangement is unique): the hypothesis `hsort` of the theorems
+below is "`np.sort` sorts" -/
+theorem sort_hypothesis_of_ascending_perm (f : Array P → Array P)
+    (hf : ∀ a, (f a).toList.Perm a.toList ∧ (f a).toList.Pairwise (· ≤ ·)) (a : Array P) :
+    (f a).toList = sortP a.toList :=
+  List.Perm.eq_of_pairwise (le := (· ≤ ·)) (fun x y _ _ h1 h2 => le_antisymm h1 h2) (hf a).2
+    (sortP_sorted a.toList) ((hf a).1.trans (sortP_perm a.toList).symm)
+
+/-- **`degree_prune_internal` (translated source) = the model `degreePrune` row by row, memory
+safe.**  For every well-formed CSR (`CsrOk`: row pointers non-negative, non-decreasing, within
+`data`), every `max_degree = m ≥ 1`, every sort function that sorts (`hsort`) and fuel
+`≥ len(indptr) + len(data) + 2`: the translated kernel performs no out-of-bounds load or store,
+terminates, and returns `data'` of the same length such that, whatever the column array `cols`
+of the CSR matrix is, every row `(cols, data')[indptr[i]:indptr[i+1]]` is the model's
+`degreePrune 0 m` of the row `(cols, data)[indptr[i]:indptr[i+1]]` (entries `> cut_value` become
+`0.0`, `cut_value = np.sort(row)[m - 1]`, rows with at most `m` entries untouched). -/
+theorem kernel_degree_prune_internal_refines [OfNat P 0] [SortFn P] (m : Nat) (hm : 0 < m)
+    (indptr : Array Int) (data : Array P) (hc : CsrOk indptr data.size) (hn : 0 < indptr.size)
+    (hsort : ∀ a : Array P, (SortFn.sortArr a).toList = sortP a.toList)
+    (fuel : Nat) (hf : indptr.size + data.size + 2 ≤ fuel) :
+    ∃ data', GenSG.degree_prune_internal fuel indptr data (m : Int) = some data' ∧
+      data'.size = data.size ∧
+      ∀ i, i < indptr.size - 1 → ∀ cols : Array Int, cols.size = data.size →
+        (rowOf indptr cols i).toList.zip (rowOf indptr data' i).toList
+          = degreePrune (0 : P) m ((rowOf indptr cols i).toList.zip (rowOf indptr data i).toList) := by
+  have hs : ∀ a : Array P, (SortFn.sortArr a).size = a.size := by
+    intro a
+    have := congrArg List.length (hsort a)
+    rw [(sortP_perm a.toList).length_eq] at this
+    simpa using this
+  refine ⟨_, degree_prune_internal_run m hm indptr data hc hs hn fuel hf, ?_, ?_⟩
+  · have : ∀ (c k : Nat) (d : Array P), (pruneFrom m indptr c k d).size = d.size := by
+      intro c
+      induction c with
+      | zero => intro k d; rfl
+      | succ c ih => intro k d; rw [pruneFrom, ih, pruneStep_size]
+    exact this _ _ _
+  · intro i hi cols hcols
+    have hrow := pruneFrom_rows m indptr data hc (indptr.size - 1) 0 data (by omega) rfl
+      (fun _ _ => rfl) (fun _ h => absurd h (Nat.not_lt_zero _)) i hi
+    rw [hrow]
+    apply prunedVals_model m hm hsort
+    have h1 : i + 1 < indptr.size := by omega
+    have hle := hc.mono i (i + 1) (by omega) h1
+    have hhi := hc.last (i + 1) h1
+    simp only [rowOf, Array.length_toList, Array.size_extract, hcols]
+
+/-- **`prune_bound` / `prune_keeps_min` on the translated kernel**: after `eliminate_zeros()` every
+row of the translated kernel's output keeps at most `m` entries or has a cut length (fewer than `m`
+kept entries strictly below it, all kept entries `≤` it, every non-zero entry `≤` it kept), and a
+non-zero shortest entry of a row is always kept. -/
+theorem kernel_degree_prune_bound [OfNat P 0] [SortFn P] (m : Nat) (hm : 0 < m)
+    (indptr : Array Int) (data : Array P) (hc : CsrOk indptr data.size) (hn : 0 < indptr.size)
+    (hsort : ∀ a : Array P, (SortFn.sortArr a).toList = sortP a.toList)
+    (fuel : Nat) (hf : indptr.size + data.size + 2 ≤ fuel) (cols : Array Int)
+    (hcols : cols.size = data.size) (i : Nat) (hi : i < indptr.size - 1) :
+    ∃ data', GenSG.degree_prune_internal fuel indptr data (m : Int) = some data' ∧
+      let row := (rowOf indptr cols i).toList.zip (rowOf indptr data i).toList
+      let out := elimZeros (0 : P) ((rowOf indptr cols i).toList.zip (rowOf indptr data' i).toList)
+      (out.length ≤ m ∨ ∃ cut, cut ∈ row.map (·.2) ∧ (∀ e ∈ out, e.2 ≤ cut) ∧
+        (out.filter (fun e => decide (e.2 < cut))).length < m ∧
+        (∀ e ∈ row, e.2 ≤ cut → isZero (0 : P) e.2 = false → e ∈ out)) ∧
+      (∀ e ∈ row, (∀ e' ∈ row, e.2 ≤ e'.2) → isZero (0 : P) e.2 = false → e ∈ out) := by
+  obtain ⟨data', h1, _, h3⟩ :=
+    kernel_degree_prune_internal_refines m hm indptr data hc hn hsort fuel hf
+  refine ⟨data', h1, ?_⟩
+  simp only [h3 i hi cols hcols]
+  exact ⟨prune_bound 0 m hm _, fun e he hmin hnz => prune_keeps_min 0 m _ e he hmin hnz⟩
+
+/-- non-vacuity of `hsort`: the model's own sort as the sort function -/
+example : ∃ _ : SortFn Nat, ∀ a : Array Nat, (SortFn.sortArr a).toList = sortP a.toList :=
+  ⟨⟨fun a => (sortP a.toList).toArray⟩, fun _ => rfl⟩
+
+/-- the translated kernel executed: CSR rows `[5,1,3]`, `[2]`, `[4,4,9,1]` with `max_degree = 2`
+(cut values 3 and 4): entries above the cut (5, 9) become 0, the short row is untouched -/
+example : (letI : SortFn Nat := ⟨fun a => (sortP a.toList).toArray⟩
+    GenSG.degree_prune_internal 20 #[0, 3, 4, 8] #[5, 1, 3, 2, 4, 4, 9, 1] (2 : Int))
+      = some #[0, 1, 3, 2, 4, 4, 0, 1] := by decide +kernel
+
+end KernelTie
 
 end Pynn.C16
